@@ -46,6 +46,30 @@ def generated_specs():
         specs["gen-clike-%d" % i] = strip(H.emit_spec(H.Pack([g])))
     # 1600 keywords: pushes nxt/chk and the DFA arrays through several reallocations
     kws = ["".join(w) for w in itertools.product("abcdefg", repeat=4)][:1600]
+    # user code with m4 quote sequences in every region (the escapes are written through different paths per region)
+    specs["gen-usercode"] = """%top{
+#include <stdio.h>
+static int vf_t[2]; /* [[ ]] */
+#define VF_TT(i) vf_t[vf_t[i]]
+}
+%option noyywrap
+%{
+static int vf_u[2]; /* ]] [[ */
+#define VF_UU(i) vf_u[vf_u[i]]
+%}
+    static const char *vf_ind = "[[indented]]";
+%%
+%{
+    int vf_loc[2] = {0, 0}; (void)vf_loc[vf_loc[0]];
+%}
+a   { return VF_TT(0) + VF_UU(0) + vf_loc[vf_loc[1]]; }
+b   |
+c   { const char *s = "]][["; return s[0] == ']'; }
+<<EOF>> { return 0; /* [[eof]] */ }
+.|\\n { }
+%%
+int vf_sect3[2]; int vf_f(void) { return vf_sect3[vf_sect3[0]]; }
+"""
     specs["gen-keywords"] = "%option noyywrap\n%%\n" + "".join("%s { return %d; }\n" % (k, i + 1) for i, k in enumerate(kws)) + "[a-z]+ { return 0; }\n.|\\n { }\n%%\n"
     return specs
 
